@@ -156,6 +156,23 @@ def ip_opts(rng):
             break
         size += sz
         out.append((t, d))
+    return with_transient(rng, out, [1, 0, 7, 68, 130, 148, 136])
+
+
+def with_transient(rng, out, kinds):
+    """an add / remove history behind the final option list: one or two options of a type the list does not hold are added
+    in the middle of it and removed again (remove_option) before the packet is used (seeded/C05e: a cached option size
+    that is wrong only after the removal of a single-byte option while other options remain)"""
+    if not out or rng.random() > 0.35:
+        return out
+    out = list(out)
+    for _ in range(rng.choice([1, 1, 2])):
+        free = [k for k in kinds if all(str(t).lstrip("~") != str(k) for t, _ in out)]
+        if not free:
+            break
+        k = rng.choice(free)
+        d = b"" if k in (0, 1) else rbytes(rng, rng.choice([0, 1, 2, 4, 9]))
+        out.insert(rng.randint(0, len(out)), (f"~{k}", d))
     return out
 
 
@@ -181,7 +198,7 @@ def tcp_opts(rng, allow_overflow=False):
             break
         size += sz
         out.append((t, d))
-    return out
+    return with_transient(rng, out, [1, 0, 4, 2, 3, 8, 19])
 
 
 def ip6_exts(rng):
